@@ -269,6 +269,9 @@ class NTuple(Collection):
     @classmethod
     def new(cls, values: List[NadaType]) -> "NTuple":
         """Constructs a new NTuple."""
+        # The members are fixed when the operation is recorded: keep a copy, so that a
+        # later change of the caller's list cannot alter what accessors see.
+        values = list(values)
         return NTuple(
             values=values,
             child=NTupleNew(
@@ -336,6 +339,8 @@ class Object(Collection):
     @classmethod
     def new(cls, values: Dict[str, NadaType]) -> "Object":
         """Constructs a new Object."""
+        # The fields are fixed when the operation is recorded (see NTuple.new).
+        values = dict(values)
         return Object(
             values=values,
             child=ObjectNew(
